@@ -111,8 +111,11 @@ class StmtMixin(object):
                 return
             if isinstance(v, EnumV):
                 v = v.e
+            from translate_call import FloorV
+            if isinstance(v, FloorV):
+                v = self.real_to_int(v, d) if ty == INT else fail(d, 'floor result kept as double')
             s = self.scalar(v, d)
-            if ty == INT and s.ty == REAL:
+            if ty == INT and isE(s) and s.ty == REAL:
                 s = self.real_to_int(s, d)
             if ty == REAL:
                 s = to_real(s)
@@ -211,7 +214,10 @@ class StmtMixin(object):
             self.bind(name, v)
             return
         if td.kind == 'veclist':
-            self.bind(name, VecListBuilder(self, td, name))
+            m = self.declare(StoreMat(self.fresh(name), td.elem.R if td.elem.C == 1 else td.elem.C))
+            m.is_veclist = True
+            self.assign(m.rows_lv(), 0)
+            self.bind(name, m)
             return
         fail(d, 'no declaration rule for type %r' % td)
 
@@ -242,6 +248,17 @@ class StmtMixin(object):
         hook = self.opt.get('real_to_int')
         if hook:
             return hook(self, s, n)
+        from translate_call import FloorV
+        if isinstance(s, FloorV) and self.opt.get('i2r'):
+            x = s.x
+            k = self.new_scalar('floor', INT)
+            self.emit(Havoc(scalars=[(k.name, INT)]))
+            lim = E.const(Fraction(2147483648))
+            self.obligation((x >= -lim) & (x < lim), 'floor result fits int (conversion is undefined otherwise) %s' % where(n), 'bounds')
+            kr = to_real(k.rd())
+            self.emit(Assume((kr <= x) & (x < kr + 1), 'std::floor followed by conversion to int'))
+            self.notes.append('std::floor + double->int conversion modelled by  k <= x < k+1  (int->double conversion: see I2R axioms)')
+            return k.rd()
         fail(n, 'real -> int conversion needs a model')
 
     def bind_auto(self, name, v, is_ref, d):
